@@ -211,14 +211,24 @@ def _(a):
     return flags_ok(a.result)
 
 def _simp_rec(g, a):
+    """Induction hypothesis: what simplify_cir may return for a sub-expression.
+    Products and sums are spelled out as shapes so that rules which look one
+    level into a simplified operand are followed instead of being undecided."""
     if isinstance(a.e, (CIR.Const, CIR.Read, CIR.Stride)):
         return a.e
-    k = g.choose(["const", "usub", "other"], "rec")
+    k = g.choose(["const", "usub", "other", "const*e", "e*const", "e+e"], "rec")
     if k == "const":
         return CIR.Const(g.int("rc"))
     if k == "usub":
         return CIR.USub(opaque_cir(g, "ru", not_ctors=()), False)
-    return opaque_cir(g, "ro", not_ctors=(CIR.Const, CIR.USub))
+    if k == "other":
+        return opaque_cir(g, "ro", not_ctors=(CIR.Const, CIR.USub, CIR.BinOp))
+    leaf = lambda nm: opaque_cir(g, nm, not_ctors=(CIR.Const, CIR.USub, CIR.BinOp))
+    if k == "const*e":
+        return CIR.BinOp("*", CIR.Const(g.int("rk")), leaf("rm"), False)
+    if k == "e*const":
+        return CIR.BinOp("*", leaf("rm"), CIR.Const(g.int("rk")), False)
+    return CIR.BinOp("+", leaf("rp"), leaf("rq"), False)
 
 csc.callee("simplify_cir", result=_simp_rec,
            ensures=lambda a: And(cev(a.result) == cev(a.e), flags_ok(a.result)),
